@@ -1,5 +1,5 @@
 ---- MODULE MC_Config ----
-EXTENDS ConfigMachine
+EXTENDS ConfigMachine, IOUtils
 
 s(t) == StrV(t)
 D1(k, v) == DictV(<< <<s(k), v>> >>)
@@ -176,6 +176,43 @@ MCListOpsV ==
          [m |-> "append", v |-> D1(<<"p", "o", "r", "t">>, IntV(3))], [m |-> "item_set", i |-> 0, k |-> "host", v |-> NoneV],
          [m |-> "item_set", i |-> 0, k |-> "host", v |-> s(<<"x">>)], [m |-> "pop"]}]
 MCDictOpsV == [pk \in {<< <<>>, "opts">>} |-> {[m |-> "clear"], [m |-> "setitem", k |-> s(<<"k", "k">>), v |-> IntV(3)]}]
+
+(* ---- the generated schema family (Generic = TRUE): every root schema with two (three) keys, each
+        key one of the node shapes below - scalar fields of every validation flavour, typed
+        containers, list of configurations, nested schemas to depth 2, a ConfigType, a dynamic
+        and a validator-carrying sub-schema.  Candidate values come from ConfigMachine!Gen*. ---- *)
+GItemS == SchemaF(<< <<"p", With(IntF, [hasmin |-> TRUE, min |-> 1, hasmax |-> TRUE, max |-> 9, default |-> IntV(1)])>> >>)
+GLeaves == <<
+    With(IntF, [hasmin |-> TRUE, min |-> 1, hasmax |-> TRUE, max |-> 9, default |-> IntV(5)]),
+    With(IntF, [required |-> TRUE]),
+    With(StringF, [tcase |-> "lower", stripm |-> "ws", default |-> s(<<"a", "b">>)]),
+    With(StringF, [choices |-> << <<"u">>, <<"a", "b">> >>, maxlen |-> 3]),
+    With(BoolF, [default |-> BoolV(FALSE)]),
+    IPv4AddrF,
+    With(BytesF, [encoding |-> "hex"]),
+    With(ListF(With(IntF, [hasmin |-> TRUE, min |-> 0])), [default |-> ListV(<<>>)]),
+    With(DictF(StringF, IntF), [default |-> DictV(<<>>)]),
+    With(ListF(GItemS), [default |-> ListV(<<>>)]) >>
+GSubs == <<
+    SchemaF(<< <<"x", With(IntF, [default |-> IntV(1), required |-> TRUE])>>, <<"y", With(StringF, [choices |-> << <<"u">>, <<"v">> >>])>> >>),
+    [validators |-> <<"x_not_3">>] @@ SchemaF(<< <<"x", With(IntF, [default |-> IntV(1)])>> >>),
+    SchemaF(<< <<"deep", DeepS>>, <<"x", With(IntF, [hasmin |-> TRUE, min |-> 0])>> >>),
+    [dynamic |-> TRUE] @@ SchemaF(<< <<"y", With(StringF, [default |-> s(<<"q">>)])>> >>),
+    SchemaF(<< <<"l", With(ListF(With(IntF, [hasmin |-> TRUE, min |-> 0])), [default |-> ListV(<<IntV(1)>>)])>> >>),
+    [ctype |-> TRUE] @@ SchemaF(<< <<"u", With(IntF, [default |-> IntV(0)])>> >>) >>
+GNodes == GLeaves \o GSubs
+NG == Len(GNodes)
+GFirst == SchemaF(<< <<"a", With(IntF, [hasmin |-> TRUE, min |-> 1, hasmax |-> TRUE, max |-> 9, default |-> IntV(5)])>>,
+                     <<"s", With(StringF, [tcase |-> "lower", stripm |-> "ws", default |-> s(<<"a", "b">>)])>> >>)
+MCFamily2 == [i \in 1..(NG * NG) |-> SchemaF(<< <<"a", GNodes[((i - 1) \div NG) + 1]>>, <<"s", GNodes[((i - 1) % NG) + 1]>> >>)]
+\* three keys: a sub-schema, a leaf, anything
+MCFamily3 == MCFamily2 \o [i \in 1..(Len(GSubs) * Len(GLeaves) * NG) |->
+                 SchemaF(<< <<"a", GSubs[((i - 1) \div (Len(GLeaves) * NG)) + 1]>>,
+                            <<"s", GLeaves[(((i - 1) \div NG) % Len(GLeaves)) + 1]>>,
+                            <<"d", GNodes[((i - 1) % NG) + 1]>> >>)]
+MCNoFamily == <<>>
+\* replay sample: every FAM_STRIDE-th schema (environment of the TLC run)
+SidSample == (sid % atoi(IOEnv.FAM_STRIDE)) = atoi(IOEnv.FAM_PHASE)
 
 (* ---- instance B: the textual and numeric field classes inside a configuration (C01, C06, C12) ---- *)
 NestB == SchemaF(<< <<"addr", With(IPv4AddrF, [default |-> s(<<"1", "0", ".", "0", ".", "0", ".", "1">>)])>>, <<"cnt", With(IntF, [hasmin |-> TRUE, min |-> 1, default |-> IntV(1)])>> >>)
